@@ -60,4 +60,37 @@ CLAIMED = {
            "scores on the thresholds; met, reasons and ancillary hits compared."),
   "note": "Hits are ProfileHit objects built by the harness; genes are stand-ins carrying only a secmet location (the evaluator reads nothing else).",
  },
+ "C03": {
+  "text": ("Partial. Proof about a Gallina model of protocluster formation ON LINEAR RECORDS for rules without extenders/superiors "
+           "(cluster_prediction.find_protoclusters: Feature ordering (start, length), the sweep that extends the previous core by the cutoff, "
+           "clips it to the record and tests cds.overlaps_with, hull update, neighbourhood extension with clipping). Proved for every record "
+           "length, cutoff and multiset of anchoring genes incl. nested/overlapping ones in any input order (C03/Theorems.v): C03_chain_linear - "
+           "the groups formed are exactly the maximal chains of genes closer than the cutoff: every anchor in exactly one group (permutation), no "
+           "empty group, members of a group connected through pairs closer than the cutoff, members of different groups never closer than the "
+           "cutoff (strict <), core = tight hull of its group; C03_neighbourhood_linear - extent = core +- neighbourhood clipped to the record, "
+           "contains the core. The proof shows the literal two-sided overlap test equals 'starts before hull end + cutoff' under the sweep "
+           "invariant. NOT modelled/proved: circular records (wrap merge, merge_over_origin, _extend_area_location caps), extenders, superior "
+           "removal, anchors from rule evaluation (C01 covers the evaluator; the tie uses single-profile rules so that anchors = genes hit) - "
+           "those are exercised only by the metamorphic runs of C07. Correspondence: the REAL pipeline detect_protoclusters_and_signatures (rules "
+           "parsed by the real parser, dynamic profiles) on 4k (quick) / 60k (thorough) linear records with gaps on {cutoff-1, cutoff, cutoff+1}; "
+           "cores and extents compared with the model, and an independent union-find oracle of the proximity components is evaluated on the "
+           "implementation's output so that a violation comes with a failing input."),
+  "note": "On a linear record connect_locations = hull and extend_location = clipped interval are the C04 theorems C04_connect_line and the linear extend theorem; the C03 model carries cores as (start, end) on that basis.",
+ },
+ "C07": {
+  "text": ("Partial. (1) Rule order: abstract model of the per-gene, per-cutoff cache of apply_cluster_rules, proved for every rule list, "
+           "information function and detector: each rule is evaluated on the information of its own cutoff (C07_cache_transparent), results are "
+           "permutation-equivariant (C07_rule_order) and unaffected by sub-selection (C07_rule_subselection). (2) Rotation: primitive-level "
+           "theorem C07_rotation_distance_partial (distance between parts is invariant when both move by the same amount, line and ring of any "
+           "length; with C01_met the truth of every condition is frame independent for genes not cut by the origin) and the image of an area "
+           "under rotation is the Coq model of offset_location (C04_offset_simple_ring: same bases rotated). The full statement (same "
+           "protoclusters/candidates/regions for every rotation with regions < N/2) is NOT proved: it is decided on each run by a metamorphic "
+           "correspondence - the real pipeline (real parser, dynamic profiles, 9 condition shapes incl. cds/minimum/not, own cutoffs and "
+           "neighbourhoods) is run on a circular record and on up to 6 rotations per record placed on gene/core/neighbourhood boundaries +-1 "
+           "(no gene cut), and the protoclusters must equal the Coq-rotated protoclusters of the base run (800 records quick / 12k thorough); "
+           "every admissible permutation of 2-3 rules incl. SUPERIORS must give identical protoclusters and definition domains. Rules with "
+           "SUPERIORS are excluded from the rotation runs: known finding F38 (rotation_superior_partial_overlap), reproduced on every run."),
+  "note": "The metamorphic runs are testing of the implementation (failing-input search), not proof; gene coordinates are rotated by the harness, area images by the extracted Coq model.",
+  "technique": "machine-checked proof in Coq 8.16.1 (cache transparency, distance invariance) + metamorphic correspondence run of the real pipeline against the Coq rotation model",
+ },
 }
